@@ -446,6 +446,18 @@ def run_case(ctx, P, stream, idx):
                                     key_feats, irgen.type_kind_of(gp.get("typ")), irgen.default_kind_of(gp)),
                                             "after sync --truth %s the %s target has %s=%r, the truth has %r" % (
                                                 truth, k, pn, td, gd), dict(w, target=k, after=now[k], param=pn))
+                    # the truth's return description, as the generator wrote it (read by nobody's parser), is in the text of
+                    # every target this run wrote
+                    rdoc = ((irs[truth].get("returns") or {}).get("return_type") or {}).get("doc")
+                    # (an argparse truth keeps its return entry only together with a default - the documented normalisation)
+                    if rdoc and rdoc.strip() and now[k] != srcs[k] and k != truth and not irs[truth].get("_long") and \
+                            truth != "argparse_function":
+                        P.monitor("target.return-description-vs-source.compared")
+                        squash = lambda t: " ".join(t.split())
+                        if squash(rdoc).rstrip(".") not in squash(now[k]):
+                            P.deviation("sync.target-return-description-differs-from-source|" + key_feats,
+                                        "after sync --truth %s the %s target does not carry the truth's return description %r"
+                                        % (truth, k, rdoc), dict(w, target=k, after=now[k]))
                     # code outside the target is unchanged (AST level)
                     if st in ("differs", "equal", "truth", "absent") and srcs[k].strip():
                         P.monitor("outside.compared")
